@@ -393,8 +393,14 @@ func (a *TCPAllocation) Addr() net.Addr {
 // HandleConnectionAttempt is called by the TURN client
 // when it receives a ConnectionAttempt indication.
 func (a *TCPAllocation) HandleConnectionAttempt(from *net.TCPAddr, cid proto.ConnectionID) {
-	a.connAttemptCh <- &connectionAttempt{
+	// Never block the client's inbound path: if nobody is accepting, drop the attempt
+	// (the server closes the peer connection when it is not bound within 30 seconds).
+	select {
+	case a.connAttemptCh <- &connectionAttempt{
 		from: from,
 		cid:  cid,
+	}:
+	default:
+		a.log.Warnf("Connection attempt queue full, dropping attempt from %s", from)
 	}
 }
